@@ -46,6 +46,7 @@ REWRITES = {"internal/tiering/migrator.go": [
     # fallible operations (arguments are kept as written)
     ("m.copyFileStreaming(ctx, ", "verifCopy(m, ctx, ", 1),
     ("m.manager.metadata.UpdateTier(", "verifUpdateTier(m.manager.metadata, ", 1),
+    ("m.manager.metadata.RecordMigration(", "verifRecordMigration(m.manager.metadata, ", 1),
     ("dstBackend.Delete(", "verifDelete(\"rollback\", dstBackend, ", 1),
     ("srcBackend.Delete(", "verifDelete(\"source\", srcBackend, ", 1),
 ]}
@@ -98,12 +99,22 @@ def translate_params():
 # cases
 # ---------------------------------------------------------------------------------------
 
-OUTCOMES = [("done",), ("crash", 0), ("crash", 1), ("crash", 2), ("crash", 3), ("copyfail",), ("midstream",),
-            ("metafail", True), ("metafail", False), ("delfail",)]
+# ("midstream", k): the hot ReadTo really delivers 0 / 1 / half / all-but-one bytes and then fails;
+# a trailing "rec" marks that the tier_migrations insert (RecordMigration) fails as well (MigrateFile tolerates that)
+OUTCOMES = [("done",), ("crash", 0), ("crash", 1), ("crash", 2), ("crash", 3), ("copyfail",),
+            ("midstream", 0), ("midstream", 1), ("midstream", 2), ("midstream", 3),
+            ("metafail", True), ("metafail", False), ("delfail",),
+            ("done", "rec"), ("metafail", True, "rec"), ("metafail", False, "rec"), ("midstream", 2, "rec"), ("delfail", "rec")]
+
+
+def core(oc):
+    """outcome without the record-failure marker"""
+    oc = tuple(oc)
+    return oc[:-1] if oc and oc[-1] == "rec" else oc
 
 
 def unsafe(oc):
-    return oc == ("crash", 1) or oc == ("metafail", False)
+    return core(oc) == ("crash", 1) or core(oc) == ("metafail", False)
 
 
 def gen_files(rng, n, ctr):
@@ -167,8 +178,9 @@ def op_to_harness(o):
     d = {"op": o[0], "file": 0, "outcome": {"kind": "done", "k": 0, "rollback_ok": True}}
     if o[0] == "migrate":
         d["file"] = o[1]
-        oc = o[2]
-        d["outcome"] = {"kind": oc[0], "k": oc[1] if oc[0] == "crash" else 0, "rollback_ok": bool(oc[1]) if oc[0] == "metafail" else True}
+        oc = core(o[2])
+        d["outcome"] = {"kind": oc[0], "k": oc[1] if oc[0] in ("crash", "midstream") else 0, "rollback_ok": bool(oc[1]) if oc[0] == "metafail" else True,
+                        "record_fail": tuple(o[2])[-1] == "rec"}
     return d
 
 
@@ -184,15 +196,15 @@ def nontrivial(c):
     """a crash or step failure strictly inside a migration (after its first, before its last durable step)"""
     for o in c["ops"]:
         if o[0] == "migrate":
-            oc = tuple(o[2])
-            if oc in (("crash", 1), ("crash", 2), ("metafail", True), ("metafail", False), ("delfail",), ("midstream",)):
+            oc = core(o[2])
+            if oc in (("crash", 1), ("crash", 2), ("metafail", True), ("metafail", False), ("delfail",)) or oc[0] == "midstream":
                 return True
     return False
 
 
 def cop(o):
     if o[0] == "migrate":
-        oc = tuple(o[2])
+        oc = core(o[2])      # the migration-history rows are not part of the model state: a failed insert changes nothing
         m = {"done": "MDone", "copyfail": "MCopyFail", "midstream": "MCopyFail", "delfail": "MDelFail"}.get(oc[0])
         if oc[0] == "crash":
             m = "(MCrash %d)" % oc[1]
@@ -232,6 +244,7 @@ def run_impl(cases, tag):
     for c, o in zip(cases, out):
         if o.get("err") or len(o.get("obs") or []) != len(c["ops"]):
             raise vlib.TieBroken("C12 harness could not run case %s: %s" % (c["id"], o.get("err")))
+        o["obs"] = o.get("obs") or []
         for ob in o["obs"]:
             for k in ("hot", "cold", "meta"):
                 ob[k] = ob.get(k) or {}
@@ -240,7 +253,14 @@ def run_impl(cases, tag):
 
 
 def eval_cases(cases, obs, name):
-    terms = [case_to_coq(c, o) for c, o in zip(cases, obs)]
+    try:
+        terms = [case_to_coq(c, o) for c, o in zip(cases, obs)]
+        return _eval_terms(terms, name)
+    except (vlib.InfraError, KeyError, ValueError, TypeError) as e:
+        raise vlib.TieBroken("the implementation's observations could not be evaluated against the model (unexpected shape): %s" % str(e)[-1500:])
+
+
+def _eval_terms(terms, name):
     return par_check("C12", HEADER, "tcase", terms, {"agree": "tcase_agrees", "oracle": "tcase_oracle", "moracle": "tcase_model_oracle"}, name)
 
 
@@ -253,7 +273,8 @@ def shrink_case(c, fails):
     for _ in range(10):
         cands = []
         for i in range(len(cur["ops"])):
-            cands.append(dict(cur, ops=cur["ops"][:i] + cur["ops"][i + 1:]))
+            if len(cur["ops"]) > 1:
+                cands.append(dict(cur, ops=cur["ops"][:i] + cur["ops"][i + 1:]))
         for i, f in enumerate(cur["files"]):
             if len(f) > 1:
                 cands.append(dict(cur, files=cur["files"][:i] + [f[:1]] + cur["files"][i + 1:]))
@@ -289,7 +310,7 @@ def run(res, tier, seed):
         res.stage("translate_params", t0)
     res.cov["params"] = params
     # the Go harness runs while coqc checks the theorems
-    cases = witness_cases() + gen_cases(rng, 28 if tier == "quick" else 400, tier)
+    cases = witness_cases() + gen_cases(rng, 18 if tier == "quick" else 400, tier)
     from concurrent.futures import ThreadPoolExecutor
     pool = ThreadPoolExecutor(max_workers=1)
     t1 = time.time()
@@ -360,9 +381,13 @@ def run(res, tier, seed):
             rr = eval_cases(cands, o, "Shrink_C12")
             bad = sorted(set(rr["agree"]))
             return bad[0] if bad else None
-        small = dict(shrink_case(c, fails) if len(real_dis) < 40 else c, id=0)
-        o = run_impl([small], "shrink")
-        rr = eval_cases([small], o, "Shrink_C12")
+        try:
+            small = dict(shrink_case(c, fails) if len(real_dis) < 40 else c, id=0)
+            o = run_impl([small], "shrink")
+            rr = eval_cases([small], o, "Shrink_C12")
+        except Exception as e:                      # shrinking is best effort: report the unshrunk case
+            res.notes.append("shrinking failed: %s" % str(e)[-300:])
+            small, o, rr = dict(c, id=0), [out[real_dis[0]]], {"oracle": [0] if real_dis[0] in orf else []}
         res.violation("model and implementation disagree on a migration history",
                       {"kind": "correspondence", "correspondence": TIE_NAME, "case": jsonable(small), "observed": o[0]["obs"], "disagreeing_cases": len(real_dis),
                        "oracle_fails_on_impl": bool(rr["oracle"])}, no_input=not rr["oracle"], suffix="corr")
